@@ -1,6 +1,7 @@
 import Driver.QC
 import Driver.Sort
 import Driver.Codec
+import Driver.Cfg
 /-!
   The model driver (line protocol, DESIGN.md 3.5): reads one case per line on
   stdin, runs the executable Lean model, prints what it predicts.
@@ -18,10 +19,21 @@ partial def loop (h : IO.FS.Stream) (f : String → String) : IO Unit := do
     IO.println (f l)
     loop h f
 
+partial def loopSt {σ} (h : IO.FS.Stream) (f : σ → String → σ × String) (st : σ) : IO Unit := do
+  let line ← h.getLine
+  if line.isEmpty then return ()
+  let l := line.trimAscii.toString
+  if l.isEmpty then loopSt h f st
+  else
+    let (st', out) := f st l
+    IO.println out
+    loopSt h f st'
+
 def main (args : List String) : IO UInt32 := do
   let stdin ← IO.getStdin
   match args with
   | ["qc"] => loop stdin qcLine; return 0
   | ["sort"] => loop stdin sortLine; return 0
   | ["codec"] => loop stdin codecLine; return 0
+  | ["cfg"] => loopSt stdin cfgStep {}; return 0
   | _ => IO.eprintln "usage: driver <engine>"; return 2
